@@ -121,14 +121,17 @@ func (p ParallelBatchParser[T]) processAsync(batches []string, work func(int, st
 // splitIntoChunks divides a string into n substrings of roughly equal byte-size
 // (not character-count). The chunk’s byte size might differ slightly: (a) because
 // the last chunk contains the remainder, which will probably be smaller, and (b)
-// because the chunks are never divided in between UTF-8 code points.
+// because the chunks are never divided in between UTF-8 code points or CRLF sequences.
 func splitIntoChunks(txt string, numberOfBatches int) []string {
 	batchByteSize := int(math.Ceil(float64(len(txt)) / float64(numberOfBatches)))
 	batches := make([]string, numberOfBatches)
 	pointer := 0
 	for i := 0; i < numberOfBatches; i++ {
 		nextPointer := pointer + batchByteSize
-		for nextPointer < len(txt) && !utf8.RuneStart(txt[nextPointer]) {
+		// Move forward if the boundary would be within a UTF-8 code point, or in between
+		// the `\r` and the `\n` of a line ending. (A chunk ending in a lone `\r` would take
+		// that for text, i.e. for a significant line, and cut the blocks differently.)
+		for nextPointer < len(txt) && (!utf8.RuneStart(txt[nextPointer]) || (txt[nextPointer] == '\n' && txt[nextPointer-1] == '\r')) {
 			nextPointer++
 		}
 		if nextPointer > len(txt) {
